@@ -947,7 +947,7 @@ class ItemMoveMultiple(MosFile):
             )
 
         if self.item is None:
-            target_item_index = len(story)
+            target_item = None
         else:
             target_item, target_item_index = find_child(parent=story, child_tag='item', id=self.item.id)
             if target_item is None:
@@ -955,13 +955,27 @@ class ItemMoveMultiple(MosFile):
                     f"{self.__class__.__name__} error in {self.message_id} - target item not found"
                 )
 
-        for i, item in enumerate(self.items, start=target_item_index):
+        # resolve every source before changing anything
+        source_items = []
+        for item in self.items:
             source_item, source_item_index = find_child(parent=story, child_tag='item', id=item.id)
-            if source_item_index is None:
+            if source_item is None:
                 raise MosMergeError(
                     f"{self.__class__.__name__} error in {self.message_id} - source item not found"
                 )
+            if source_item is target_item or source_item in source_items:
+                raise MosMergeError(
+                    f"{self.__class__.__name__} error in {self.message_id} - item named more than once"
+                )
+            source_items.append(source_item)
+
+        for source_item in source_items:
             remove_node(parent=story, node=source_item)
+        if target_item is None:
+            target_item_index = len(story)
+        else:
+            target_item, target_item_index = find_child(parent=story, child_tag='item', id=self.item.id)
+        for i, source_item in enumerate(source_items, start=target_item_index):
             insert_node(parent=story, node=source_item, index=i)
 
         return ro
@@ -1895,8 +1909,8 @@ class EAStoryMove(ElementAction):
         """
         Merge into the :class:`RunningOrder` object provided.
         """
-        if self.story is None:
-            target_story_index = len(ro.base_tag)
+        if self.story is None or self.story.id is None:
+            target_story = None
         else:
             target_story, target_story_index = find_child(parent=ro.base_tag, child_tag='story', id=self.story.id)
             if target_story is None:
@@ -1904,14 +1918,28 @@ class EAStoryMove(ElementAction):
                     f"{self.__class__.__name__} error in {self.message_id} - target story not found"
                 )
 
+        # resolve every source before changing anything
+        source_stories = []
         for source_story in self.stories:
             story, source_index = find_child(parent=ro.base_tag, child_tag='story', id=source_story.id)
             if story is None:
                 raise MosMergeError(
                     f"{self.__class__.__name__} error in {self.message_id} - source story not found"
                 )
+            if story is target_story or story in source_stories:
+                raise MosMergeError(
+                    f"{self.__class__.__name__} error in {self.message_id} - story named more than once"
+                )
+            source_stories.append(story)
+
+        for story in source_stories:
             remove_node(parent=ro.base_tag, node=story)
-            insert_node(parent=ro.base_tag, node=story, index=target_story_index)
+        if target_story is None:
+            target_story_index = len(ro.base_tag)
+        else:
+            target_story, target_story_index = find_child(parent=ro.base_tag, child_tag='story', id=self.story.id)
+        for i, story in enumerate(source_stories, start=target_story_index):
+            insert_node(parent=ro.base_tag, node=story, index=i)
         return ro
 
     def inspect(self):
@@ -1976,18 +2004,37 @@ class EAItemMove(ElementAction):
             raise MosMergeError(
                 f"{self.__class__.__name__} error in {self.message_id} - story not found"
             )
-        target_item, target_item_index = find_child(parent=story, child_tag='item', id=self.item.id)
-        if target_item is None:
-            raise MosMergeError(
-                f"{self.__class__.__name__} error in {self.message_id} - target item not found"
-            )
-        for i, source_item in enumerate(self.items, start=target_item_index):
+        if self.item.id is None:
+            # move to the end of the story
+            target_item = None
+        else:
+            target_item, target_item_index = find_child(parent=story, child_tag='item', id=self.item.id)
+            if target_item is None:
+                raise MosMergeError(
+                    f"{self.__class__.__name__} error in {self.message_id} - target item not found"
+                )
+
+        # resolve every source before changing anything
+        source_items = []
+        for source_item in self.items:
             item, item_index = find_child(parent=story, child_tag='item', id=source_item.id)
             if item is None:
                 raise MosMergeError(
                     f"{self.__class__.__name__} error in {self.message_id} - source item not found"
                 )
+            if item is target_item or item in source_items:
+                raise MosMergeError(
+                    f"{self.__class__.__name__} error in {self.message_id} - item named more than once"
+                )
+            source_items.append(item)
+
+        for item in source_items:
             remove_node(parent=story, node=item)
+        if target_item is None:
+            target_item_index = len(story)
+        else:
+            target_item, target_item_index = find_child(parent=story, child_tag='item', id=self.item.id)
+        for i, item in enumerate(source_items, start=target_item_index):
             insert_node(parent=story, node=item, index=i)
         return ro
 
